@@ -969,7 +969,7 @@ def enum_template(d, gen_id, mode="full"):
     w("}")
     if vnames:
         directives.append(f"    //@ replace R16 @{occ_alts}: unknown_field_with_alts(__other, &[$$]) ==> unknown_field_with_alts(__other, {{ let __alts: &[&str] = &[$1]; proof {{ assert(strs(__alts@) =~= {vnames_seq}); }} __alts }})")
-    wordv = next((v for v in d["variants"] if v["word"] is True), None)
+    wordv = next((v for v in d["variants"] if v["word"] is True and not v["skip"]), None)    # C09: a skipped variant can never be produced
     w(f"impl<{gen_bounds}> {n}<{tps}> {{")
     w(f"    //@fn @gen:{gen_id}.rs :: impl crate::darling::FromMeta for {n}<{tps}> :: fn from_list")
     w("    #[verifier::loop_isolation(false)]")
@@ -1014,6 +1014,8 @@ def quick_enums():
         enum_desc("E5", [v("LoremIpsum"), v("DolorSit", word=True), v("Amet", "newtype", skip=True)], rename_all="kebab-case"),
         enum_desc("E6", [v("Strict", word="false"), v("Lax")]),
         enum_desc("E7", [v("One"), v("Two", "newtype")], from_word=True, from_none=True),
+        # C09 "a skipped variant can never be produced": `skip` together with `word` (F18)
+        enum_desc("E8", [v("Hidden", skip=True, word=True), v("Shown")]),
     ]
 
 
